@@ -24,13 +24,15 @@ TS1B = "2016-03-13T20:59:00-05:00"       # same instant as TS1
 TS1C = "2016-03-14T07:29:00+05:30"       # same instant, minute offset
 TS1D = "2016-03-13T22:29:00-03:30"       # same instant, negative minute offset
 TS2 = "2016-03-14T02:00:00.5Z"           # later instant
+TS1E = "2016-03-14T01:59:00.000Z"        # same instant as TS1, other number of fractional digits (as text it sorts after TS1)
+TS1F = "2016-03-14T01:59:00.5Z"          # half a second after TS1 (as text it sorts before TS1: '.' < 'Z')
 MISSING = "<missing>"
-VARIABLES = [MISSING, None, True, False, 0, 1, -1, 1.5, "", "a", "b", "A", "a*", TS1, TS1B, TS1C, TS1D, TS2, "not-a-timestamp", [], {}, {"x": 1}]
+VARIABLES = [MISSING, None, True, False, 0, 1, -1, 1.5, "", "a", "b", "A", "a*", TS1, TS1B, TS1C, TS1D, TS1E, TS1F, TS2, "not-a-timestamp", [], {}, {"x": 1}]
 STR_CONSTS = ["", "a", "b", "A", "a*", TS1]
 NUM_CONSTS = [0, 1, -1, 1.5, 2]
 BOOL_CONSTS = [True, False]
-TS_CONSTS = [TS1, TS1B, TS1C, TS1D, TS2]
-REF_VALUES = [True, False, 0, 1, 1.5, "", "a", "A", TS1, TS1C, TS1D, TS2, None, [], MISSING]
+TS_CONSTS = [TS1, TS1B, TS1C, TS1D, TS1E, TS1F, TS2]
+REF_VALUES = [True, False, 0, 1, 1.5, "", "a", "A", TS1, TS1C, TS1D, TS1E, TS1F, TS2, None, [], MISSING]
 
 _world = None
 _world_uses = 0
@@ -168,11 +170,12 @@ def table_cases():
                 st, data = mk({op: c}, var)
                 yield st, data, atom_tag(op, var, c, False), var == MISSING
     # StringMatches: every pattern of length <= 3 over {a * ? [ ] .} plus the escaped star, against a value set
-    values = ["", "a", "b", "ab", "a?", "?", "[a]", "[", "]", "a.b", "aXb", "*", "a*", "A"]
+    values = ["", "a", "b", "ab", "a?", "?", "[a]", "[", "]", "a.b", "aXb", "*", "a*", "A", "a\nb", "a\n", "\n", "ab\n", "a\\", "a\\b", "\\", "a\\*"]
     pats = []
     for n in (1, 2, 3):
         pats += ["".join(p) for p in itertools.product("a*?[].", repeat=n)]
     pats += ["\\*", "a\\*", "\\*a", "*\\*", "\\**"]
+    pats += ["\\\\", "\\\\*", "a\\\\*", "a\\\\", "*\\\\", "a*\n", "*\n*"]       # an escaped backslash (followed by a wildcard), patterns with a line break
     for pat in pats:
         for v in values:
             st, data = mk({"StringMatches": pat}, v)
